@@ -9,7 +9,24 @@ def req_name(text):
     return text.strip().split(",")[0]
 
 
-class LegacyOKPort:
+class PortExtras:
+    """members of serial.Serial a caller may also touch; harmless here (a scripted port has nothing to flush and is always open)"""
+    is_open = True
+    timeout = 1.0
+    write_timeout = 1.0
+    baudrate = 9600
+    name = port = "/dev/scripted"
+
+    def flush(self):
+        pass
+
+    flushInput = flushOutput = reset_input_buffer = reset_output_buffer = cancel_read = cancel_write = flush
+
+    def isOpen(self):  # pylint: disable=invalid-name
+        return True
+
+
+class LegacyOKPort(PortExtras):
     """legacy-syntax board that answers every request as documented (data line and/or OK)"""
 
     def __init__(self, version="2.8.1"):
@@ -38,10 +55,8 @@ class LegacyOKPort:
     def close(self):
         pass
 
-    flushInput = reset_input_buffer = close
 
-
-class EchoPort:
+class EchoPort(PortExtras):
     """EBB3 'future syntax' board: every reply starts with the request's name; queries carry a payload"""
 
     def __init__(self, qe=(0, 0), delay=0):
@@ -69,5 +84,3 @@ class EchoPort:
 
     def close(self):
         pass
-
-    reset_input_buffer = close
